@@ -97,6 +97,8 @@ def obs_record(idx, case):
     res = r["res"]
     rec = {"id": idx, "g": grammar.tla_grammar(dict(G, nts=pres["nts"], ts=pres["ts"])),
            "tables": [], "machines": [], "conflict": []}
+    # the code orders terminals by name (String Ord = byte order); TLC cannot order strings, so the rank is handed over
+    rec["g"]["tsorted"] = sorted(pres["ts"], key=lambda s: s.encode())
     if res["t"] == "ok":
         rec["verdict"] = "ok"
         # the grammar kiki extracted from the text (hook view of the validated file) against the declared one: a difference
@@ -509,6 +511,12 @@ def check(prop, tier, seed):
     for c in drift[:3]:
         print("CONFORMANCE-DRIFT property=%s the grammar kiki extracted differs from the declared one (%s): %s" % (prop, c["grammar_drift"], json.dumps(c["src"])[:300]))
     run.notes["grammar_drift"] = len(drift)
+    # Numbering.tla: the observed automaton is exactly the normal form (states in content order), not only isomorphic to it
+    renum = [c for c in cases if c["rec"] is not None and c["judge"].get("canon") is False]
+    for c in renum[:3]:
+        print("CONFORMANCE-DRIFT property=%s the automaton is the LALR(1) automaton but its states are not numbered in content order (Numbering.tla): %s" % (prop, json.dumps(c["src"])[:300]))
+    run.notes["numbering_drift"] = len(renum)
+    run.notes["numbering_exact"] = sum(1 for c in cases if c["rec"] is not None and c["judge"].get("canon") is True)
     log("  [%.0fs] traces validated" % (__import__("time").time() - t0))
     design.result()
     log("  [%.0fs] design-level models done" % (__import__("time").time() - t0))        # re-raises a ToolError of the background models
@@ -528,7 +536,9 @@ def design_level(prop, tier, run):
         # the closure models stay on U1 in both tiers: their initial states (grammar x kernel x queue order, each needing the
         # canonical collection) are generated on one thread - over U2 that alone runs for more than 25 minutes
         models = [("MC_FirstSets", "MC_FirstSets", u), ("MC_Closure", "MC_Closure", "U1"), ("MC_Closure", "MC_ClosureFifo", "U1"),
-                  ("MC_Builder", "MC_Builder", u), ("MC_Builder", "MC_BuilderFifo", u)]
+                  ("MC_Builder", "MC_Builder", u), ("MC_Builder", "MC_BuilderFifo", u),
+                  # normalize_machine: the content-sorted normal form is schedule-independent and equals the declarative one
+                  ("MC_Builder", "MC_BuilderNumbering", "U1"), ("MC_Builder", "MC_BuilderFifoNumbering", "none")]
     else:
         # every item order x every fill order: U2 itself is out of reach (> 1.3 * 10^8 states, unfinished after 70 min);
         # the thorough tier of C04 takes the slice MC_TableFill calls U2light (7.5 * 10^6 states)
